@@ -9,28 +9,34 @@ import HcProofs.Lemmas.PlainFraming
 namespace Hc.Props.C03
 open Hc.PairVerify
 
-/-- the only finish message that verifies connection `c` after an accepted start with ephemeral key `e`: sealed
-    under this exchange's key, right nonce, untampered, naming `name`, signed by key pair `pk` over
-    (ctrlEph e ‖ name ‖ accEph of connection c) -/
-def finishFor (c e name pk : Nat) : In :=
-  .v3 (.sealed (.ofEph c e) true true (.tlv name (.valid pk (some e) name c)))
+/-- the only finish message that verifies connection `c` after an accepted start with ephemeral key `e`, in the exchange
+    for which the accessory drew its `k`-th ephemeral key: sealed under this exchange's key, right nonce, untampered,
+    naming `name`, signed by key pair `pk` over (ctrlEph e ‖ name ‖ the accessory's `k`-th ephemeral key on connection c) -/
+def finishFor (c k e name pk : Nat) : In :=
+  .v3 (.sealed (.ofEph c k e) true true (.tlv name (.valid pk (some e) name c k)))
+
+/-- the number of the accessory's ephemeral key that is current after `hist` (a new one for every accepted start) -/
+def epochAfter (c : Nat) (hist : List (Store × In)) : Nat := (stAfter true c init hist).epoch
 
 /-- For every history (with the pairing store possibly changing between messages) and every next message:
     if that message installs a secure session (verifies the connection) or is answered with the success response
     (state 4, no error), then an accepted start request with ephemeral key `e` precedes it in the same exchange,
     the store maps the claimed name to `pk`, and the message is exactly the finish signed with `pk`'s secret key
-    over this exchange's material. The installed session is the one of that exchange. -/
+    over this exchange's material — the controller's ephemeral key AND the ephemeral key the accessory drew for THIS
+    exchange, so a finish recorded in an earlier exchange of the connection does not count. The installed session is the
+    one of that exchange. -/
 theorem verified_only_by_valid_finish (c : Nat) (hist : List (Store × In)) (db : Store) (i : In) :
     let st := stAfter true c init hist
     ((step true c db st i).1.installed ≠ st.installed ∨ (step true c db st i).2 = .tlv 4 none false false) →
-    ∃ e name pk, StartedNow hist e ∧ db name = .key pk ∧ i = finishFor c e name pk ∧
-      (step true c db st i).1.installed = some (some e) := by
+    ∃ e name pk, StartedNow hist e ∧ db name = .key pk ∧ i = finishFor c (epochAfter c hist) e name pk ∧
+      (step true c db st i).1.installed = some (some e) ∧ (step true c db st i).1.instEpoch = epochAfter c hist := by
   intro st hs
-  obtain ⟨name, pk, hstep, hdb, hi, hinst⟩ := step_install_iff c db st i hs
+  obtain ⟨name, pk, hstep, hdb, hi, hinst, hie⟩ := step_install_iff c db st i hs
   have hinv := inv_after c [] hist init (inv_init c)
   obtain ⟨e, hp, ho, hK⟩ := hinv hstep
-  refine ⟨e, name, pk, by simpa using hp, hdb, ?_, ?_⟩
-  · rw [hi]; simp only [finishFor]; rw [show st.K = KRef.ofEph c e from hK, show st.other = some e from ho]
+  refine ⟨e, name, pk, by simpa using hp, hdb, ?_, ?_, hie⟩
+  · rw [hi]; simp only [finishFor, epochAfter]
+    rw [show st.K = KRef.ofEph c st.epoch e from hK, show st.other = some e from ho]
   · rw [hinst]; exact congrArg some ho
 
 /-- Every other outcome — unknown name, entity without key, bad signature, undecryptable / tampered / wrong-nonce
@@ -38,7 +44,7 @@ theorem verified_only_by_valid_finish (c : Nat) (hist : List (Store × In)) (db 
     connection's verification status exactly as it was, and a finish request among them is answered with an
     error (HTTP 500 or a TLV error code). -/
 theorem failure_never_verifies (c : Nat) (hist : List (Store × In)) (db : Store) (i : In)
-    (h : ¬ ∃ e name pk, StartedNow hist e ∧ db name = .key pk ∧ i = finishFor c e name pk) :
+    (h : ¬ ∃ e name pk, StartedNow hist e ∧ db name = .key pk ∧ i = finishFor c (epochAfter c hist) e name pk) :
     let st := stAfter true c init hist
     (step true c db st i).1.installed = st.installed ∧
     (∀ d, i = .v3 d → (step true c db st i).2 = .http500 ∨ ∃ s e, (step true c db st i).2 = .tlv s (some e) false false) := by
@@ -53,7 +59,7 @@ theorem failure_never_verifies (c : Nat) (hist : List (Store × In)) (db : Store
     subst hd
     have hout : (step true c db st (.v3 d)).2 ≠ .tlv 4 none false false := fun he => hno (.inr he)
     revert hout
-    simp only [step]
+    simp only [step, stepR]
     split
     · simp
     · cases d with
@@ -72,13 +78,13 @@ theorem failure_never_verifies (c : Nat) (hist : List (Store × In)) (db : Store
 
 /-- completeness: the honest exchange verifies (non-vacuity of the statements above) -/
 theorem honest_exchange_verifies (c e name pk : Nat) (db : Store) (hdb : db name = .key pk) :
-    (step true c db (stAfter true c init [(db, .v1 (.good e))]) (finishFor c e name pk)).1.installed = some (some e) := by
-  simp [stAfter, step, init, finishFor, openSealed, sigOk, hdb]
+    (step true c db (stAfter true c init [(db, .v1 (.good e))]) (finishFor c 1 e name pk)).1.installed = some (some e) := by
+  simp [stAfter, step, stepR, init, finishFor, openSealed, sigOk, hdb]
 
 /-- an unverified connection stays unverified under any history that contains no valid finish -/
 theorem unverified_stays_unverified (c : Nat) (hist : List (Store × In))
     (h : ∀ pre x post, hist = pre ++ [x] ++ post →
-      ¬ ∃ e name pk, StartedNow pre e ∧ x.1 name = .key pk ∧ x.2 = finishFor c e name pk) :
+      ¬ ∃ e name pk, StartedNow pre e ∧ x.1 name = .key pk ∧ x.2 = finishFor c (epochAfter c pre) e name pk) :
     (stAfter true c init hist).installed = none := by
   have key : ∀ (pre rest : List (Store × In)), hist = pre ++ rest →
       (stAfter true c init pre).installed = none → (stAfter true c init (pre ++ rest)).installed = none := by
@@ -201,6 +207,25 @@ theorem plain_framing_nothing_after_complete (cl : Bytes → Option Nat) (m : Na
   ⟨complete_refuses cl m s h b hb, rfl, rfl⟩
 
 open Hc.PlainFraming in
+/-- … and an interim response (`100 Continue`, which an on-path adversary can provoke by adding `Expect: 100-continue` to
+    the header of the pair-verify finish — the header is not authenticated) does not open that window: after a complete
+    request and ANY number of interim responses every further byte is still refused. Before the repair of F48 one
+    interim response was enough for the next byte to be accepted as the beginning of a plaintext request. -/
+theorem plain_framing_interim_is_no_response (cl : Bytes → Option Nat) (m : Nat) (s : PlainFraming.St)
+    (h : s.complete = true) (k : Nat) (b : Bytes) (hb : b ≠ []) :
+    runF true cl m s (List.replicate k .interim ++ [.read b]) = none := by
+  induction k with
+  | zero => simp [runF, complete_refuses cl m s h b hb]
+  | succ n ih => simpa [List.replicate_succ, runF, interim] using ih
+
+open Hc.PlainFraming in
+theorem plain_framing_interim_unfixed_refuted :
+    let cl : Bytes → Option Nat := fun _ => some 0
+    let done : PlainFraming.St := ⟨[], 0, false, true⟩
+    runF false cl 64 done [.interim, .read [88]] = some ⟨[88], 0, false, false⟩ ∧
+    runF true cl 64 done [.interim, .read [88]] = none := by decide
+
+open Hc.PlainFraming in
 /-- Exactly one request: a header `hp ++ [z]` whose first header end is its own end, announcing `n` body bytes, followed
     by exactly `n` bytes, is accepted and leaves the connection waiting for the response; with ANY further byte glued
     behind it (the F19 attack: a plaintext request behind the pair-verify finish) the read is refused. -/
@@ -243,15 +268,50 @@ example :
     run cl 64 PlainFraming.init [.read (h ++ [6, 1]), .read [3], .respond, .read h] = some ⟨[], 3, true, false⟩ := by decide
 
 
--- the behaviour before the repair is refuted -----------------------------------------------------------
-
 /-- store: name 1 ↦ key pair 5 (e.g. the accessory's own entity, which is always stored) -/
 def db1 : Store := fun n => if n = 1 then .key 5 else .none
+
+-- every exchange has its own accessory key ------------------------------------------------------------------------------
+
+/-- Every accepted start request draws a new ephemeral key of the accessory … -/
+theorem new_exchange_new_accessory_key (c e : Nat) (db : Store) (st : St) (hw : st.step = .waiting) :
+    (step true c db st (.v1 (.good e))).1.epoch = st.epoch + 1 ∧
+    (step true c db st (.v1 (.good e))).1.K = .ofEph c (st.epoch + 1) e := by
+  simp [step, stepR, hw]
+
+/-- … so two exchanges on one connection with the SAME controller ephemeral key end in different shared secrets: the
+    second session is not the first one with its frame counters set back to zero (a recorded frame of the first session
+    is not a frame of the second; C05, C08). -/
+theorem reverify_gets_fresh_keys (c e n1 p1 n2 p2 : Nat) (db : Store) (h1 : db n1 = .key p1) (h2 : db n2 = .key p2) :
+    let s1 := stAfter true c init [(db, .v1 (.good e)), (db, finishFor c 1 e n1 p1)]
+    let s2 := stAfter true c s1 [(db, .v1 (.good e)), (db, finishFor c 2 e n2 p2)]
+    s1.installed = some (some e) ∧ s2.installed = some (some e) ∧ s1.instEpoch = 1 ∧ s2.instEpoch = 2 := by
+  simp [stAfter, step, stepR, init, finishFor, openSealed, sigOk, h1, h2]
+
+/-- … and the finish of an earlier exchange, sent again after a new start with the same controller key, is refused: the
+    key it is sealed under and the material its signature covers belong to the accessory key of that earlier exchange. -/
+theorem replayed_finish_refused (c e name pk : Nat) (db : Store) (hdb : db name = .key pk) :
+    let hist := [(db, In.v1 (.good e)), (db, finishFor c 1 e name pk), (db, In.v1 (.good e))]
+    (step true c db (stAfter true c init hist) (finishFor c 1 e name pk)).2 = .tlv 4 (some 2) false false ∧
+    (step true c db (stAfter true c init hist) (finishFor c 1 e name pk)).1.instEpoch = 1 := by
+  simp [stAfter, step, stepR, init, finishFor, openSealed, sigOk, hdb]
+
+/-- With ONE accessory key per connection (before the repair of F42) the second exchange installs the very same shared
+    secret: in the model without renewal both sessions are (key 0, e). -/
+theorem one_key_per_connection_refuted :
+    let fin : In := .v3 (.sealed (.ofEph 0 0 3) true true (.tlv 1 (.valid 5 (some 3) 1 0 0)))
+    let run := fun (renew : Bool) => [(db1, In.v1 (.good 3)), (db1, fin), (db1, In.v1 (.good 3)), (db1, fin)].foldl
+      (fun (acc : St × List Out) x => ((stepR true renew 0 x.1 acc.1 x.2).1, acc.2 ++ [(stepR true renew 0 x.1 acc.1 x.2).2])) (init, [])
+    (run false).2 = [.tlv 2 none true true, .tlv 4 none false false, .tlv 2 none true true, .tlv 4 none false false] ∧
+    (run false).1.instEpoch = 0 := by
+  decide
+
+-- the behaviour before the repair is refuted -----------------------------------------------------------
 
 /-- accepted start, then a finish with a garbage signature for a stored name: before the repair the endpoint
     installs the session although the response carries error 4 -/
 theorem unfixed_refuted :
-    (stAfter false 0 init [(db1, .v1 (.good 3)), (db1, .v3 (.sealed (.ofEph 0 3) true true (.tlv 1 (.garbage 0))))]).installed
+    (stAfter false 0 init [(db1, .v1 (.good 3)), (db1, .v3 (.sealed (.ofEph 0 1 3) true true (.tlv 1 (.garbage 0))))]).installed
       = some (some 3) := by decide
 
 /-- … and even without any accepted start (rejected wrong-length start, finish sealed under the all-zero key):
@@ -261,7 +321,7 @@ theorem unfixed_refuted_zero_key :
       = some none := by decide
 
 theorem fixed_blocks_attacks :
-    (stAfter true 0 init [(db1, .v1 (.good 3)), (db1, .v3 (.sealed (.ofEph 0 3) true true (.tlv 1 (.garbage 0))))]).installed = none ∧
+    (stAfter true 0 init [(db1, .v1 (.good 3)), (db1, .v3 (.sealed (.ofEph 0 1 3) true true (.tlv 1 (.garbage 0))))]).installed = none ∧
     (stAfter true 0 init [(db1, .v1 (.wrongLen 0)), (db1, .v3 (.sealed .zero true true (.tlv 1 (.garbage 0))))]).installed = none := by
   decide
 
